@@ -99,3 +99,57 @@ PARTS7 = [PRIMS[0], PRIMS[3]] + BARE + [MAPS[4], LISTS[6]]
 
 def chunks(n, size):
     return [[i, min(i + size, n)] for i in range(0, n, size)]
+
+
+# ---- every comparison callable in every condition position of a part (one representative argument tuple each)
+_REP = {
+    "equal_to": (1,), "not_equal_to": (1,), "less_than": (2,), "greater_than": (0,), "less_than_or_equal_to": (1,),
+    "greater_than_or_equal_to": (1,), "in_": ([1, "a"],), "not_in": ([1, "a"],), "in_range": (0, 2), "not_in_range": (0, 2),
+    "equal_to_approx": (1.0, 0.6), "factor_of": (4,), "has_factor": (2,), "truthy": (), "falsy": (), "null": (),
+    "is_instance": (int, str),
+    "keys_contain": ("a",), "keys_contain_any_of": ("a", "b"), "keys_contain_all_of": ("a", "b"),
+    "keys_contain_N_of": (1, ["a", "b"]), "keys_contain_at_least_N_of": (1, ["a", "b"]),
+    "keys_contain_at_most_N_of": (1, ["a", "b"]), "keys_contain_one_of": ("a", "b"),
+    "keys_contain_at_least_one_of": (["a", "b"],), "keys_contain_at_most_one_of": (["a", "b"],), "keys_equal_to": ("a",),
+    "keys_is_instance": (str,), "items_contain": (), "allowed_keys": ("a", "b"), "required_keys": ("a",),
+    "forbidden_keys": ("b",),
+}
+_REP_DTYPE = {"equal_to": (int,), "not_equal_to": (int,), "in_": ([int, str],), "not_in": ([int, str],), "truthy": (),
+              "falsy": (), "null": (), "is_instance": (int,)}
+
+
+def callable_leaves(kind):
+    """One leaf per (class of the datum kind, callable): kind in 'value' / 'key' / 'index'."""
+    out = []
+    for cls in T.CLASSES:
+        if T.KIND[cls] != kind:
+            continue
+        for call in T.CALLABLES[cls]:
+            if T.PREP[cls] == "dtype":
+                if call not in _REP_DTYPE:
+                    continue
+                out.append(L(cls, call, *_REP_DTYPE[call]))
+            elif call == "items_contain":
+                out.append(L(cls, call, a=1))
+            elif call in T.MAPC and kind != "value":
+                continue
+            else:
+                out.append(L(cls, call, *_REP[call]))
+    return out
+
+
+def callable_parts():
+    """Parts with every callable in every condition position: map key / map value / list index / list value /
+    map-or-list key, index, value."""
+    out = []
+    for c in callable_leaves("key"):
+        out.append(("map", c, None, None))
+        out.append(("mol", c, None, None, None))
+    for c in callable_leaves("index"):
+        out.append(("list", c, None, None))
+        out.append(("mol", None, c, None, None))
+    for c in callable_leaves("value"):
+        out.append(("map", None, c, None))
+        out.append(("list", None, c, None))
+        out.append(("mol", None, None, c, None))
+    return out
